@@ -279,13 +279,13 @@ def roots():
 def run(ctx):
     CFG["S"], CFG["T"] = POOL[ctx.seed % len(POOL)]
     CFG["quick"] = ctx.quick
-    depth = 5 if ctx.quick else 6
+    depth = 5 if ctx.quick else 7
     ctx.rule = ("BFS over histories of one endpoint: connect, send attempts of every class (application, group, Heartbeat, "
                 "Logon, Logout, TestRequest direct / via API, SequenceReset with/without number, PossDup copy) in every "
                 "reachable state, inbound frames that cause sends (Logon, TestRequest, too-high frame, ResendRequest, "
                 "GapFill, Logout), EOF; both roles; start counters; non-trivial = history in which a new message was written")
     ctx.bounds = {"depth": depth, "sends": len(SENDS), "inbound": len(INBOUND), "roots": len(roots())}
-    st = bfs.explore(ctx, Sim, roots(), depth, max_states=(120000 if ctx.quick else 900000), label="C05")
+    st = bfs.explore(ctx, Sim, roots(), depth, max_states=(120000 if ctx.quick else 1500000), label="C05")
     ctx.bounds.update(st)
     ctx.outcomes.update(v["signature"].split("|")[0] for v in ctx.violations.values())
     ctx.outcomes.add("ok")
